@@ -1,4 +1,4 @@
-import Tx3Model.LangLower
+import Tx3Model.LangAdhoc
 
 /-
 L5/L11 — `analyzing::analyze` as it stands after the lowerability fix, `lowering::lower` (by
@@ -21,7 +21,7 @@ inductive Diag where
   deriving Repr, DecidableEq, Inhabited
 
 /-- `lowering::lower_tx(tx)` for a transaction of `p`. -/
-def lowerOf (p : Program) (tx : TxDef) : Outcome Tx := lowerTx { prog := p, tx }
+def lowerOf (p : Program) (tx : TxDef) : Outcome Tx := lowerTxFull { prog := p, tx }
 
 /-- `lowering::lower(ast, template)`: the *first* transaction carrying that name. -/
 def lowerByName (p : Program) (name : String) : Outcome Tx :=
